@@ -36,11 +36,21 @@ func runC23(tr *vh.Trace, rnd *rand.Rand, nscen, nq int) {
 		g := &Gen{rnd: rnd, sc: sc, nview: &nview}
 		var qs []*Q
 		musts := map[string][][]string{}
+		wants := map[string][][]string{}
 		for i := 0; i < nq; i++ {
 			q := g.gen(1 + rnd.Intn(3))
 			if rnd.Intn(6) == 0 {
 				q = g.sortOf(q)
 			}
+			if rnd.Intn(12) == 0 {
+				q = g.fixedOrder()
+			}
+			if rnd.Intn(12) == 0 {
+				// fixed values below an extend: Select values that conflict with them
+				t := g.anyTable()
+				q = g.extend(g.fixOn(t, t.cols[rnd.Intn(len(t.cols))]), 1+rnd.Intn(2), rnd.Intn(2) == 0)
+			}
+			addWants(wants, q)
 			if q.size() > 12 {
 				i--
 				continue
@@ -48,7 +58,7 @@ func runC23(tr *vh.Trace, rnd *rand.Rand, nscen, nq int) {
 			qs = append(qs, q)
 		}
 		for c := 0; c < nschemas; c++ {
-			d := buildDB(rnd, sc, musts)
+			d := buildDB(rnd, sc, musts, wants)
 			for _, q := range qs {
 				d.defineViews(q)
 				v := randVariant(rnd, q.Op == "sort")
@@ -210,7 +220,7 @@ func (cs *cursorSession) run() {
 	}
 	switch cs.use {
 	case "order", "group":
-		n := 1 + cs.rnd.Intn(3)
+		n := 2 + cs.rnd.Intn(3)
 		for i := 0; i < n; i++ {
 			clear := cs.rnd.Intn(5) == 0
 			// (Select gets exactly the requirement columns, as joins and the repository's fuzz test do)
